@@ -225,6 +225,111 @@ def h_coupled(ctx, m, n, coef):
                 ctx.prove("C16.euler_recursion_coupled_fine" if comp == 0 else "C16.euler_recursion_coupled_coarse", EQ(x0[k] + val[comp, k, i], X[i][k, 0]), info=dict(info, step=i))
 
 
+class LevelledDriverCoupling:
+    """stand-in for CouplingMarkovChain seen through the attributes CouplingSDE uses: a grid whose h halves and a fine chain whose
+    CTMC drift is a different number at every level; one scripted coupled driver path"""
+
+    class _Grid:
+        def __init__(self, h):
+            self.h = h
+
+    class _Fine:
+        def __init__(self, owner):
+            self.o = owner
+
+        def process_drift(self):
+            return self.o.drifts[self.o.level]
+
+    def __init__(self, drifts, path, h):
+        self.drifts, self.level, self.path = drifts, 0, path
+        self.grid = self._Grid(h)
+        self.fine_process = self._Fine(self)
+        self.log = []
+
+    def initialisation(self, product=None, max_step_epsilon=None):
+        self.log.append(("initialisation", self.level))
+
+    def pre_computation(self, mc_paths=None, product=None):
+        pass
+
+    def next_level(self, mc_paths=None, path_managers=None, product=None, max_step_epsilon=None):
+        self.level += 1
+        self.grid.h = self.grid.h / 2
+
+    def simulate_one_path_with_coupling(self):
+        return self.path
+
+
+class _PM:
+    deterministic_path = None
+
+    def update(self, rep):
+        pass
+
+
+def _levelled_sde(model, drifts, path, h):
+    cp = CSDE.CouplingSDE.__new__(CSDE.CouplingSDE)
+    cp.model, cp.level, cp.method = model, 0, None
+    cp.epsilon = h
+    fine = MSDE.MarkovChainSDE.__new__(MSDE.MarkovChainSDE)
+    fine.model = model
+
+    class _MC:
+        def process_drift(self_inner):
+            return drifts[0]
+
+    fine.markov_chain = _MC()
+    fine.initialisation = lambda product=None: None
+    cp.fine_process = fine
+    cp._process_representation = ProcessRepresentation.IDENDITY
+    cp._spots = np.array(model.x0)
+    cp.driver_coupling_process = LevelledDriverCoupling(drifts, path, h)
+    cp.mc_drift_h = cp.mc_drift_2h = None
+    cp.initialisation(product=None)  # level 0: reads the chain drift of the initial grid
+    return cp
+
+
+def replay_levels(sc):
+    """real CouplingSDE.next_level twice over a stand-in driver coupling whose chain drift is 0.3, 0.2, 0.1 at levels 0, 1, 2; a = 1,
+    one step of length 1 without jumps or diffusion: the fine / coarse values after the step are the level's / previous level's drift"""
+    drifts = [0.3, 0.2, 0.1]
+    model = LSDE.LevyDrivenSDEModel(driver=StubDriver(1), x0=np.array([0.0]), a=LSDE.Constant(m=1, d=1, constant=1.0))
+    times = np.array([0.0, 1.0])
+    path = PATH.StochasticJumpPath(times, np.zeros((2, 2)), np.zeros((2, 2)))
+    cp = _levelled_sde(model, drifts, path, 0.1)
+    pms = [_PM()]
+    bad = []
+    for level in (1, 2):
+        cp.next_level(mc_paths=0, path_managers=pms, product=None)
+        val = cp.simulate_one_path_with_coupling().value()
+        fine, coarse = float(val[0, 0, 1]), float(val[1, 0, 1])
+        if abs(fine - drifts[level]) > 1e-12 or abs(coarse - drifts[level - 1]) > 1e-12:
+            bad.append(f"level {level}: fine {fine!r} (chain drift of this level {drifts[level]}), coarse {coarse!r} (chain drift of the previous level {drifts[level - 1]})")
+    return bool(bad), "dX = dY, driver without jumps/diffusion, chain drift 0.3/0.2/0.1 at levels 0/1/2, X after one unit step: " + "; ".join(bad)
+
+
+def h_coupled_levels(ctx, n, coef, levels):
+    """the real next_level bookkeeping: at level l the fine component uses the CTMC drift of grid level l, the coarse one that of level l-1"""
+    d = m = 1
+    model, x0, a = make_model(ctx, m, d, coef)
+    path = driver_path(ctx, d, n, pair=True)
+    drifts = [ctx.real(f"chain_drift_level{l}") for l in range(levels + 1)]
+    h = ctx.real("h0")
+    ctx.assume(h > 0)
+    cp = _levelled_sde(model, drifts, path, h)
+    pms = [_PM()]
+    rp = (replay_levels, lambda mm: {})
+    for level in range(1, levels + 1):
+        cp.next_level(mc_paths=0, path_managers=pms, product=None)
+        val = cp.simulate_one_path_with_coupling().value()
+        info = {"steps": n, "coef": coef, "level": level}
+        for comp, mu in ((0, drifts[level]), (1, drifts[level - 1])):
+            X = euler_oracle(a, x0, path, mu, d, n, comp=comp)
+            ctx.prove("C16.levels.fine_uses_this_levels_driver_drift" if comp == 0 else "C16.levels.coarse_uses_previous_levels_driver_drift",
+                      AND(*[EQ(x0[k] + val[comp, k, i], X[i][k, 0]) for i in range(n + 1) for k in range(m)]), info=info, replay=rp)
+        ctx.prove("C16.levels.one_path_manager_per_level", len(pms) == level + 1, info=info, replay=rp)
+
+
 # ---- discount factors
 
 
@@ -336,12 +441,14 @@ def harnesses(tier):
     for which in ("forward", "libor"):
         for m in ((1, 2) if q else (1, 2, 3)):
             hs.append(Harness(f"df.{which}.{m}", h_df_rates, {"which": which, "m": m}, max_paths=6000, batch=20))
+    for coef in (("constant",) if q else ("constant", "diag", "affine")):
+        hs.append(Harness(f"coupled.levels.{coef}", h_coupled_levels, {"n": 1 if q else 2, "coef": coef, "levels": 2 if q else 3}, max_paths=2000))
     hs.append(Harness("df.simple", h_df_simple, max_paths=200))
     hs.append(Harness("twin", h_twin, twin="must_fail"))
     return hs
 
 
-EXPECT = ["C16.euler_recursion_single", "C16.constant_coefficient_closed_form", "C16.diagonal_coefficient_closed_form", "C16.euler_recursion_coupled_fine",
+EXPECT = ["C16.levels.coarse_uses_previous_levels_driver_drift", "C16.levels.fine_uses_this_levels_driver_drift", "C16.euler_recursion_single", "C16.constant_coefficient_closed_form", "C16.diagonal_coefficient_closed_form", "C16.euler_recursion_coupled_fine",
           "C16.euler_recursion_coupled_coarse", "C16.df_is_one_at_zero", "C16.df_positive", "C16.df_non_increasing", "C16.df_at_tenor_is_product_of_period_accruals",
           "C16.df_exponential_model"]
 
